@@ -17,50 +17,68 @@ Proof.
   rewrite ref_eqb_spec. split; [intros ->; reflexivity|intros H; now inversion H].
 Qed.
 
-Lemma referrers_in_iff : forall g l self key j,
-  In j (referrers_in g l self key) <->
-  fst j = g /\ j <> self /\ exists q, nth_error l (snd j) = Some q /\ get_ref (qo q) = Some key.
+Lemma referrers_in_iff : forall g l key j,
+  In j (referrers_in g l key) <->
+  fst j = g /\ exists q, nth_error l (snd j) = Some q /\ get_ref (qo q) = Some key.
 Proof.
-  intros g l self key j. unfold referrers_in, graph_positions. rewrite in_map_iff. split.
+  intros g l key j. unfold referrers_in, graph_positions. rewrite in_map_iff. split.
   - intros ((j', q) & Hj & Hin). simpl in Hj. subst j'. apply filter_In in Hin.
     destruct Hin as (Hin & Hf). apply graph_positions_from_in in Hin.
     destruct Hin as (Hg & _ & Hn). rewrite Nat.sub_0_r in Hn.
-    unfold is_referrer in Hf. simpl in Hf. apply andb_true_iff in Hf. destruct Hf as (Hne & Hr).
+    unfold is_referrer in Hf. simpl in Hf.
+    split; [assumption|]. exists q. split; [assumption|]. now apply refers_to_iff.
+  - intros (Hg & q & Hn & Hr). exists (j, q). split; [reflexivity|].
+    apply filter_In. split.
+    + apply graph_positions_from_in. rewrite Nat.sub_0_r. repeat split; auto. lia.
+    + unfold is_referrer. simpl. now apply refers_to_iff.
+Qed.
+
+Lemma other_referrers_in_iff : forall g l self key j,
+  In j (other_referrers_in g l self key) <->
+  fst j = g /\ j <> self /\ exists q, nth_error l (snd j) = Some q /\ get_ref (qo q) = Some key.
+Proof.
+  intros g l self key j. unfold other_referrers_in, graph_positions. rewrite in_map_iff. split.
+  - intros ((j', q) & Hj & Hin). simpl in Hj. subst j'. apply filter_In in Hin.
+    destruct Hin as (Hin & Hf). apply graph_positions_from_in in Hin.
+    destruct Hin as (Hg & _ & Hn). rewrite Nat.sub_0_r in Hn.
+    unfold is_other_referrer in Hf. simpl in Hf. apply andb_true_iff in Hf. destruct Hf as (Hne & Hr).
     split; [assumption|]. split.
     + intros ->. now rewrite didx_eqb_refl in Hne.
     + exists q. split; [assumption|]. now apply refers_to_iff.
   - intros (Hg & Hne & q & Hn & Hr). exists (j, q). split; [reflexivity|].
     apply filter_In. split.
     + apply graph_positions_from_in. rewrite Nat.sub_0_r. repeat split; auto. lia.
-    + unfold is_referrer. simpl. apply andb_true_iff. split; [|now apply refers_to_iff].
+    + unfold is_other_referrer. simpl. apply andb_true_iff. split; [|now apply refers_to_iff].
       destruct (didx_eqb self j) eqn:E; [|reflexivity]. apply didx_eqb_spec in E. congruence.
 Qed.
 
-Lemma referrers_iff : forall ds g self key j,
-  In j (referrers ds g self key) <->
-  fst j = g /\ j <> self /\ exists q, quad_at ds j = Some q /\ get_ref (qo q) = Some key.
+(* the quads of graph g whose object is `key` *)
+Lemma referrers_iff : forall ds g key j,
+  In j (referrers ds g key) <->
+  fst j = g /\ exists q, quad_at ds j = Some q /\ get_ref (qo q) = Some key.
 Proof.
-  intros ds g self key j. unfold referrers, quad_at. split.
+  intros ds g key j. unfold referrers, quad_at. split.
   - destruct (lookup_graph ds g) as [l|] eqn:El; [|contradiction].
-    intros H. apply referrers_in_iff in H. destruct H as (Hg & Hne & q & Hn & Hr).
+    intros H. apply referrers_in_iff in H. destruct H as (Hg & q & Hn & Hr).
     rewrite Hg, El. eauto 6.
-  - intros (Hg & Hne & q & Hq & Hr). rewrite Hg in Hq.
+  - intros (Hg & q & Hq & Hr). rewrite Hg in Hq.
     destruct (lookup_graph ds g) as [l|]; [|discriminate].
     apply referrers_in_iff. eauto 6.
 Qed.
 
+(* the quads of the dataset, other than `self`, whose object is `key` *)
 Lemma all_referrers_iff : forall ds self key j, is_map ds ->
   (In j (all_referrers ds self key) <->
    j <> self /\ exists q, quad_at ds j = Some q /\ get_ref (qo q) = Some key).
 Proof.
   intros ds self key j Hm. unfold all_referrers. rewrite in_flat_map. split.
-  - intros ((g, l) & Hin & Hj). simpl in Hj. apply referrers_in_iff in Hj.
+  - intros ((g, l) & Hin & Hj). simpl in Hj. apply other_referrers_in_iff in Hj.
     destruct Hj as (Hg & Hne & q & Hn & Hr). split; [assumption|]. exists q. split; [|assumption].
     unfold quad_at. rewrite Hg. now rewrite (lookup_graph_unique _ _ _ Hm Hin).
   - intros (Hne & q & Hq & Hr). unfold quad_at in Hq.
     destruct (lookup_graph ds (fst j)) as [l|] eqn:El; [|discriminate].
     exists (fst j, l). split; [now apply lookup_graph_in|]. simpl.
-    apply referrers_in_iff. eauto 6.
+    apply other_referrers_in_iff. eauto 6.
 Qed.
 
 Lemma two_in_length : forall {A} (l : list A) a b, In a l -> In b l -> a <> b -> (2 <= List.length l)%nat.
